@@ -32,7 +32,7 @@ class LoopSpec:
                 env[name] = Sym(I.ctx.fresh(name, Int))
             elif isinstance(v, SymList) and v.elem_sort is not None:
                 env[name] = SymList.fresh(I.ctx, name, v.elem_sort)
-            elif isinstance(v, list) and not v and name in getattr(self, "list_sorts", {}):
+            elif isinstance(v, (list, SymList)) and name in getattr(self, "list_sorts", {}):
                 env[name] = SymList.fresh(I.ctx, name, self.list_sorts[name])
             else:
                 self.havoc_local(I, fr, name, v)
@@ -45,6 +45,9 @@ class LoopSpec:
 
     def inv(self, I, fr, it, i):
         return []
+
+    def ghost_step(self, I, fr, it, i):
+        """ghost assignments executed at the end of the loop body, before the invariant is re-checked"""
 
 
 class Contract:
